@@ -20,7 +20,7 @@ RULE = (
     "(role in operand 1, role in operand 2) in {in,out,absent}^2 \\ {(absent,absent)} to n variables (all 64 ordered "
     "assignments for n<=2, all multisets for n=3,4); mention patterns: each of A1,G1,A2,G2 is empty, one atom over any "
     "subset of the variables it may mention (n>=3: none / first / all), or two atoms; shared-atom variants (A2=G1, "
-    "G1=G2, A1=A2, A1=G2) for n<=2; arguments: every legal vars_to_keep / additional_inputs subset (n>=3: none, one, "
+    "G1=G2, A1=A2, A1=G2) for n<=3; arguments: every legal vars_to_keep / additional_inputs subset (n>=3: none, one, "
     "all) and one illegal one. Environment answers per primitive call: refine {fresh, empty, ValueError, leftover}, "
     "relax {fresh, empty, ValueError, drop-dirty-terms}, simplify {same, ValueError, drop first, drop last}, "
     "refines {True, False}; each answer records the Horn fact its documented contract promises. Deviation bound "
@@ -64,6 +64,8 @@ def _opts(allowed, n, two):
             out.append([allowed[:1]])
             if len(allowed) > 1:
                 out.append([list(allowed)])
+            if two:
+                out.append([list(allowed), allowed[-1:]])
     return out
 
 
@@ -91,7 +93,7 @@ def _cases_for(n):
                     for g2 in _opts(i2 + o2, n, True):
                         pat = [a1, g1, a2, g2]
                         shares = [""]
-                        if n <= 2:
+                        if n <= 3:
                             if a2 and g1 and a2[0] == g1[0]:
                                 shares.append("a2=g1")
                             if g1 and g2 and g1[0] == g2[0]:
